@@ -205,6 +205,9 @@ func solve(o *Obligation, dir string, budgetMs int, portfolioAll bool) *SolveRes
 				ms0 = 1500
 			}
 			stt, out, ms := runSolver(ctx, solvers[0], sf, ms0)
+			if kd := os.Getenv("GOVC_KEEPSLICE"); kd != "" && stt == "unsat" && strings.Contains(o.Name, kd) {
+				os.WriteFile(filepath.Join("/tmp", fmt.Sprintf("slice-%x-%d.smt2", hashStr(o.Name), k)), []byte(st), 0o644)
+			}
 			os.Remove(sf)
 			label := "definitions only"
 			if withFacts {
@@ -242,6 +245,22 @@ func solve(o *Obligation, dir string, budgetMs int, portfolioAll bool) *SolveRes
 		firstMs = 6000
 	}
 	definitive := func(s string) bool { return s == "sat" || s == "unsat" }
+	if o.Class == "smoke" && os.Getenv("GOVC_NOSLICE") == "" {
+		// vacuity probes: a contradiction among few assumptions is found fastest on the cone of
+		// influence of the reachability constant (unsat on a subset of the assumptions is unsat)
+		if st := o.smtSliced(true); st != "" {
+			sf := file + ".smoke.smt2"
+			if err := os.WriteFile(sf, []byte(st), 0o644); err == nil {
+				stt, out, ms := runSolver(ctx, solvers[0], sf, 1500)
+				os.Remove(sf)
+				res.Tried = append(res.Tried, fmt.Sprintf("%s(cone of influence):%s:%dms", solvers[0].name, stt, ms))
+				if stt == "unsat" {
+					res.Status, res.Solver, res.Ms, res.Output = stt, solvers[0].name, ms, out
+					return res
+				}
+			}
+		}
+	}
 	if o.Class == "smoke" {
 		// vacuity probes get one short attempt: only a definite `unsat` matters
 		st, out, ms := runSolver(ctx, solvers[0], file, 1200)
